@@ -445,6 +445,124 @@ fn run_rel<W: Write>(w: &mut W, mode: &str, i: usize, case: &Case, run_rng: &mut
     }
 }
 
+
+// ---- Vt-level sweep over every Unicode scalar value ----
+pub const VS_COLS: usize = 4;
+pub const VS_ROWS: usize = 2;
+pub const VS_PRES: [&str; 10] = [
+    "",
+    "\x1b(0",
+    "\x1b)0\x0e",
+    "abcd",
+    "\x1b[4habc\r",
+    "\x1b[",
+    "\x1b[1;2",
+    "\x1b]0;x",
+    "\x1bPq",
+    "\x1b[?7labcd",
+];
+
+fn vs_case(index: usize) -> Case {
+    let k = index / 0x110000;
+    let cp = (index % 0x110000) as u32;
+    let c = char::from_u32(cp).unwrap_or('\u{fffd}');
+    let mut ops = Vec::new();
+    if !VS_PRES[k].is_empty() {
+        ops.push(Op::Str(VS_PRES[k].to_string()));
+        ops.push(Op::Flush);
+    }
+    ops.push(Op::Str(c.to_string()));
+    ops.push(Op::Flush);
+    // and what follows: a printable character and a line feed show where the cursor / modes really are
+    ops.push(Op::Str("Z\n".to_string()));
+    ops.push(Op::Flush);
+    Case { cols: VS_COLS, rows: VS_ROWS, limit: None, ops }
+}
+
+fn vs_sig(vt: &Vt, c: char) -> String {
+    let d = vt.dump();
+    let mut s = if (c as u32) >= 0x100 { d.replace(c, "\u{fffd}") } else { d };
+    write!(s, "|{}", vt.lines().len()).unwrap();
+    s
+}
+
+/// the three ways of feeding pre ++ [c]: 0 = one feed_str, 1 = two feed_str calls, 2 = feed() per character
+fn vs_eval(pre: &str, c: char, way: u8) -> String {
+    let r = catch_unwind(AssertUnwindSafe(|| {
+        let mut b = Vt::builder();
+        b.size(VS_COLS, VS_ROWS);
+        let mut vt = b.build();
+        match way {
+            0 => {
+                let mut s = String::with_capacity(pre.len() + 4);
+                s.push_str(pre);
+                s.push(c);
+                vt.feed_str(&s);
+            }
+            1 => {
+                vt.feed_str(pre);
+                let mut t = [0u8; 4];
+                vt.feed_str(c.encode_utf8(&mut t));
+            }
+            _ => {
+                for ch in pre.chars() {
+                    vt.feed(ch);
+                }
+                vt.feed(c);
+            }
+        }
+        vs_sig(&vt, c)
+    }));
+    r.unwrap_or_else(|_| "PANIC".to_string())
+}
+
+fn codes(s: &str) -> String {
+    s.chars().map(|c| (c as u32).to_string()).collect::<Vec<_>>().join(",")
+}
+
+
+/// replay of a sweep case: the three ways of feeding the case's text, decided on the implementation alone
+fn vs_ways_of_case(case: &Case) -> Vec<String> {
+    let strs: Vec<&str> = case.ops.iter().filter_map(|o| if let Op::Str(s) = o { Some(s.as_str()) } else { None }).collect();
+    let all: String = strs.concat();
+    let run = |way: u8| -> String {
+        catch_unwind(AssertUnwindSafe(|| {
+            let mut b = Vt::builder();
+            b.size(case.cols, case.rows);
+            if let Some(l) = case.limit {
+                b.scrollback_limit(l);
+            }
+            let mut vt = b.build();
+            match way {
+                0 => {
+                    vt.feed_str(&all);
+                }
+                1 => {
+                    for s in &strs {
+                        vt.feed_str(s);
+                    }
+                }
+                _ => {
+                    for ch in all.chars() {
+                        vt.feed(ch);
+                    }
+                }
+            }
+            vt.dump()
+        }))
+        .unwrap_or_else(|_| "PANIC".to_string())
+    };
+    let (a, b, d) = (run(0), run(1), run(2));
+    let mut out = Vec::new();
+    if a == "PANIC" || b == "PANIC" || d == "PANIC" {
+        out.push(format!("ECHO ORA prop=C01 kind=vsweep.panic input=[{}] one_call={} per_chunk={} per_char={}", codes(&all), a == "PANIC", b == "PANIC", d == "PANIC"));
+    }
+    if a != b || a != d {
+        out.push(format!("ECHO ORA prop=C12 kind=vsweep.chunking input=[{}] differs={}", codes(&all), if a != b { "feed_str-per-chunk" } else { "feed()-per-character" }));
+    }
+    out
+}
+
 fn arg<'a>(args: &'a [String], name: &str) -> Option<&'a str> {
     args.iter().position(|a| a == name).and_then(|i| args.get(i + 1)).map(|s| s.as_str())
 }
@@ -507,8 +625,13 @@ fn main() {
                 ops,
             };
             let m = arg(&args, "--mode").unwrap_or("trace");
-            if m == "trace" {
+            if m == "trace" || m == "vsweep" {
                 let mut tr = Tracer { w: out, steps: 0, panics: 0, truncated: 0, max_lines: 150 };
+                if m == "vsweep" {
+                    for l in vs_ways_of_case(&case) {
+                        writeln!(tr.w, "{}", l).unwrap();
+                    }
+                }
                 tr.run_case(0, &case, true);
                 tr.w.flush().unwrap();
             } else {
@@ -759,14 +882,106 @@ fn main() {
             w.flush().unwrap();
             eprintln!("harness: sweep feeds={}", total);
         }
+
+        "vsweep" => {
+            // Vt-level sweep: after each of a few prefixes, EVERY Unicode scalar value, fed three ways
+            // (one feed_str / two feed_str calls / feed() per character) into a fresh 4x2 terminal.
+            //  - the three ways must agree (C12) and none may panic (C01): decided here, on the implementation alone
+            //  - the signature (dump + number of lines, the character itself normalised) is run-length encoded over
+            //    the scalar values; every value below U+0100 and both ends of every run above become ordinary
+            //    trace cases, which the driver checks step-wise against the model with all oracles.
+            let max_cases: usize = arg(&args, "--max-cases").map_or(1500, |s| s.parse().unwrap());
+            const SEGS: u32 = 8;
+            let njobs = VS_PRES.len() * SEGS as usize;
+            let next = std::sync::atomic::AtomicUsize::new(0);
+            let slots: Vec<std::sync::Mutex<Option<(String, Vec<usize>, u64, usize)>>> = (0..njobs).map(|_| std::sync::Mutex::new(None)).collect();
+            std::thread::scope(|sc| {
+                for _ in 0..16 {
+                    sc.spawn(|| loop {
+                        let job = next.fetch_add(1, std::sync::atomic::Ordering::SeqCst);
+                        if job >= njobs {
+                            break;
+                        }
+                        let k = job / SEGS as usize;
+                        let seg = (job % SEGS as usize) as u32;
+                        let pre = VS_PRES[k];
+                        let (from, to) = (seg * (0x110000 / SEGS), (seg + 1) * (0x110000 / SEGS) - 1);
+                        let mut echo = String::new();
+                        let mut cases: Vec<usize> = Vec::new();
+                        let mut n: u64 = 0;
+                        let mut runs = 0usize;
+                        let mut nech = 0usize;
+                        let mut run: Option<(u32, u32, String)> = None;
+                        for cp in from..=to {
+                            let c = match char::from_u32(cp) {
+                                Some(c) => c,
+                                None => continue,
+                            };
+                            let a = vs_eval(pre, c, 0);
+                            let b = vs_eval(pre, c, 1);
+                            let d = vs_eval(pre, c, 2);
+                            n += 3;
+                            if (a == "PANIC" || b == "PANIC" || d == "PANIC") && nech < 5 {
+                                nech += 1;
+                                writeln!(echo, "ECHO ORA prop=C01 kind=vsweep.panic case={} prefix={} char={} input=[{}] one_call={} two_calls={} per_char={}",
+                                    k * 0x110000 + cp as usize, k, cp, codes(&format!("{}{}", pre, c)), a == "PANIC", b == "PANIC", d == "PANIC").unwrap();
+                            }
+                            if (a != b || a != d) && nech < 5 {
+                                nech += 1;
+                                writeln!(echo, "ECHO ORA prop=C12 kind=vsweep.chunking case={} prefix={} char={} input=[{}] differs={}",
+                                    k * 0x110000 + cp as usize, k, cp, codes(&format!("{}{}", pre, c)), if a != b { "feed_str(pre);feed_str(c)" } else { "feed()-per-character" }).unwrap();
+                            }
+                            let sig = format!("{}\u{1}{}\u{1}{}", a, if b == a { "" } else { &b }, if d == a { "" } else { &d });
+                            if cp < 0x100 {
+                                cases.push(k * 0x110000 + cp as usize);
+                            }
+                            match &mut run {
+                                Some((_, hi, s0)) if *s0 == sig => *hi = cp,
+                                _ => {
+                                    if let Some((lo, hi, _)) = run.take() {
+                                        runs += 1;
+                                        if lo >= 0x100 { cases.push(k * 0x110000 + lo as usize); }
+                                        if hi >= 0x100 && hi != lo { cases.push(k * 0x110000 + hi as usize); }
+                                    }
+                                    run = Some((cp, cp, sig));
+                                }
+                            }
+                        }
+                        if let Some((lo, hi, _)) = run.take() {
+                            runs += 1;
+                            if lo >= 0x100 { cases.push(k * 0x110000 + lo as usize); }
+                            if hi >= 0x100 && hi != lo { cases.push(k * 0x110000 + hi as usize); }
+                        }
+                        *slots[job].lock().unwrap() = Some((echo, cases, n, runs));
+                    });
+                }
+            });
+            let results: Vec<(String, Vec<usize>, u64, usize)> = slots.into_iter().map(|m| m.into_inner().unwrap().unwrap()).collect();
+            let mut tr = Tracer { w: out, steps: 0, panics: 0, truncated: 0, max_lines: 150 };
+            let (mut total, mut runs, mut ncases, mut dropped) = (0u64, 0usize, 0usize, 0usize);
+            for (echo, cases, n, r) in results {
+                tr.w.write_all(echo.as_bytes()).unwrap();
+                total += n;
+                runs += r;
+                for (j, id) in cases.iter().enumerate() {
+                    if j >= max_cases / SEGS as usize + 300 { dropped += cases.len() - j; break; }
+                    tr.run_case(*id, &vs_case(*id), false);
+                    ncases += 1;
+                }
+            }
+            writeln!(tr.w, "VSTAT {} {} {}", total, runs, ncases).unwrap();
+            tr.w.flush().unwrap();
+            eprintln!("harness: vsweep prefixes={} feeds={} runs={} trace_cases={} dropped={} checkpoints={} panics={}",
+                VS_PRES.len(), total, runs, ncases, dropped, tr.steps, tr.panics);
+        }
         "case" => {
             // print case <index> of (seed, profile) in the replay format
             let seed: u64 = arg(&args, "--seed").map_or(1, |s| s.parse().unwrap());
             let i: usize = arg(&args, "--index").map_or(0, |s| s.parse().unwrap());
-            let prof = profile(arg(&args, "--profile").unwrap_or("general"));
+            let prof = profile(match arg(&args, "--profile") { Some("vsweep") | None => "general", Some(p) => p });
             let mut rng = if prof.name.starts_with("exhaust") { Rng(i as u64) } else { Rng::new(seed.wrapping_mul(1_000_003).wrapping_add(i as u64)) };
             let m = arg(&args, "--mode").unwrap_or("trace");
-            let case = if m == "text" { text_case(&mut rng) } else { gen_case(&mut rng, &prof) };
+            let case = if m == "vsweep" { vs_case(i) } else if m == "text" { text_case(&mut rng) } else { gen_case(&mut rng, &prof) };
             let mut w = out;
             write_case(&mut w, &case, run_seed(seed, i));
             w.flush().unwrap();
